@@ -185,6 +185,11 @@ func getField(name string, x ast.Node, parent *flds.Field) (flds.Field, bool) {
 	ast.Inspect(x, func(n ast.Node) bool {
 		switch t := n.(type) {
 		case *ast.Field:
+			if n != x {
+				// a member of an anonymous struct type or a parameter of a
+				// func type: its tag and type are not those of this field
+				return false
+			}
 			if t.Tag != nil {
 				tag = parseTag(t.Tag.Value)
 			}
